@@ -9,6 +9,7 @@ not consult the model.
 import LndModel.Prelude.Lines
 import LndModel.Prelude.Sha256
 import LndModel.C15.Model
+import LndModel.C15.Conc
 
 open LndModel LndModel.Lines LndModel.C15
 
@@ -230,7 +231,15 @@ structure St where
   opHodl : List (Nat × String) := []
   /-- calls of a concurrent group (monitor-only stream): evaluated together at `pend` -/
   parOps : List (NotifyRec × String) := []
+  /-- concurrent group read completely up to `pend`; its hodl messages / dumps are being read -/
+  parPending : Bool := false
+  /-- SettleHodlInvoice call of the group: (preimage, answer) -/
+  parSettle : Option (Nat × String) := none
+  /-- clock advance that happened concurrently with the group -/
+  parDt : Nat := 0
   concCases : Nat := 0
+  concExplained : Nat := 0
+  concSchedules : Nat := 0
   intro : List (Nat × NotifyRec) := []
   settledKeys : List Nat := []
   canceledKeys : List Nat := []
@@ -554,6 +563,88 @@ def parseNotify (rest : List String) : NotifyRec :=
       | none => none,
     tot := (kvNat? rest "tot").getD 0 }
 
+/-! ### concurrent groups: search for a schedule of the interleaving model (Conc.lean) -/
+
+/-- (invoice hash, circuit key) of every accepted htlc of an open invoice whose hold time has
+    passed: the hold timers that lnd's event loop is about to fire. -/
+def dueTimers (hold : Nat) (reg : Reg) : List (Nat × Nat) :=
+  (reg.invs.filter (fun i => i.state == .open)).flatMap (fun i =>
+    (i.htlcs.filter (due hold reg.now)).map (fun h => (i.hash, h.key))) ++
+  (reg.amps.filter (fun a => a.state == .open)).flatMap (fun a =>
+    (a.htlcs.filter (fun h => due hold reg.now h.base)).map (fun h => (a.hash, h.base.key)))
+
+/-- commit one transaction of the interleaving model and finish its fan-out at once. -/
+def commitNow (cfg : Cfg) (reg : Reg) (a : CAct) : Reg × Reply × List (Nat × Res) :=
+  let t : Tx := match a with
+    | .ev e => txOf shaNat childPre cfg reg e
+    | .core ctx => coreTx shaNat childPre cfg reg ctx
+    | .timers sel => timersTx sel reg
+    | .expire h f => expireTx reg h f
+    | _ => ⟨reg, .unit, [], none⟩
+  let (reg', out) := finish t
+  (reg', out.reply, out.msgs)
+
+/-- the transactions of one NotifyExitHopHtlc call: the just-in-time AddInvoice of
+    processKeySend / processAMP (if any; its refusal is ignored), then the locked part. -/
+def notifyProg (cfg : Cfg) (n : NotifyRec) (res : String) : List (CAct × Option String) :=
+  let ctx := mkCtx n
+  match preSpec shaNat cfg { ctx with rejectDelta := cfg.rejectDelta } with
+  | .ok (some spec) => [(.ev (.addInvoice spec), none), (.core ctx, some res)]
+  | _ => [(.core ctx, some res)]
+
+structure ParObs where
+  hodl : List (Nat × String)
+  dumps : List (String × String)   -- (hash hex, raw dump | "none")
+
+def dumpOf (reg : Reg) (h : String) : String :=
+  match findHash reg.invs (hexNatD h) with
+  | some i => modelDump i
+  | none =>
+    match findAmp reg.amps (hexNatD h) with
+    | some a => ampDump a
+    | none => "none"
+
+def sortMsgs (l : List (Nat × String)) : List (Nat × String) :=
+  (l.toArray.qsort (fun a b => a.1 < b.1 || (a.1 == b.1 && a.2 < b.2))).toList
+
+def parAccept (obs : ParObs) (reg : Reg) (delivered : List (Nat × Res)) : Bool :=
+  sortMsgs (delivered.map (fun m => (m.1, resStr m.2))) == sortMsgs obs.hodl &&
+  obs.dumps.all (fun (h, raw) => dumpOf reg h == raw)
+
+/-- depth-first search over the interleavings of the group's transactions, the clock advance and
+    the hold timers that become due; returns the final registry of the first schedule that
+    reproduces every answer, the delivered hodl messages and the dumps, and the number of
+    complete schedules tried. -/
+def searchPar (cfg : Cfg) (obs : ParObs) : Nat → Reg → List (List (CAct × Option String)) →
+    Option Nat → List (Nat × Res) → Option Reg × Nat
+  | 0, _, _, _, _ => (none, 0)
+  | fuel + 1, reg, progs, adv, delivered =>
+    let timers := dueTimers cfg.hold reg
+    if progs.all (·.isEmpty) && adv.isNone && timers.isEmpty then
+      (if parAccept obs reg delivered then some reg else none, 1)
+    else
+      -- options: next transaction of any program, the clock advance, any due timer
+      let progOpts : List (Unit → Option Reg × Nat) :=
+        (List.range progs.length).filterMap (fun i =>
+          match progs[i]? with
+          | some ((a, exp) :: rest) => some (fun _ =>
+              let (reg', rep, msgs) := commitNow cfg reg a
+              if exp.isSome && exp != some (replyStr rep) then (none, 0)
+              else searchPar cfg obs fuel reg' (progs.set i rest) adv (delivered ++ msgs))
+          | _ => none)
+      let advOpts : List (Unit → Option Reg × Nat) :=
+        match adv with
+        | some dt => [fun _ => searchPar cfg obs fuel { reg with now := reg.now + dt } progs none delivered]
+        | none => []
+      let timerOpts : List (Unit → Option Reg × Nat) :=
+        timers.map (fun (h, k) => fun _ =>
+          let (reg', _, msgs) := commitNow cfg reg (.timers (oneTimer h k))
+          searchPar cfg obs fuel reg' progs adv (delivered ++ msgs))
+      (progOpts ++ advOpts ++ timerOpts).foldl (fun (acc : Option Reg × Nat) f =>
+        match acc.1 with
+        | some _ => acc
+        | none => let r := f (); (r.1, acc.2 + r.2)) (none, 0)
+
 /-- compare the model's reply with the implementation's, start expecting the model's messages. -/
 def modelOp (s : St) (reg' : Reg) (out : Out) (impl : String) : IO St := do
   let s := { s with reg := reg', expMsgs := out.msgs, modelOps := s.modelOps + 1 }
@@ -566,7 +657,28 @@ def leftoverMsgs (s : St) : IO St := do
     return { s' with expMsgs := [] }
   return s
 
+/-- the concurrent group has been read completely (answers, hodl messages, dumps): find a schedule
+    of the interleaving model that explains it and continue from its final registry. -/
+def resolvePar (s : St) : IO St := do
+  if !s.parPending then return s
+  let s := { s with parPending := false }
+  if !s.modelOn then return s
+  let progs := s.parOps.map (fun (n, res) => notifyProg s.cfg n res) ++
+    (match s.parSettle with
+     | some (p, res) => [[(CAct.ev (.settle p), some res)]]
+     | none => [])
+  let obs : ParObs := { hodl := s.opHodl,
+                        dumps := s.cur.map (fun d => (d.hash, d.raw)) ++ s.curNone.map (fun h => (h, "none")) }
+  let (r, n) := searchPar s.cfg obs 64 s.reg progs (if s.parDt == 0 then none else some s.parDt) []
+  let s := { s with concSchedules := s.concSchedules + n, modelOps := s.modelOps + s.parOps.length }
+  match r with
+  | some reg' => return { s with reg := reg', concExplained := s.concExplained + 1 }
+  | none =>
+    let s ← mismatch s s!"concurrent group: no interleaving of the model's transactions ({n} complete schedules tried) reproduces the answers {s.parOps.map (·.2)}, the {s.opHodl.length} hodl message(s) and the dumps"
+    return { s with modelOn := false }
+
 def startOp (s : St) (kind line : String) : IO St := do
+  let s ← resolvePar s
   let s ← leftoverMsgs s
   let s ← finishOp s
   return { s with opKind := kind, opLine := line, opNotify := none, opRes := resOf line, opHodl := [], parOps := [],
@@ -592,7 +704,8 @@ def step (s : St) (line : String) : IO St := do
                        ksHold := kvNat? rest "kshold" == some 1, hold := (kvNat? rest "hold").getD 30,
                        sql := kv? rest "store" == some "sql" }
     let s := { s with caseId := id, cfg := cfg, ampOn := kvNat? rest "amp" == some 1,
-                       reg := Reg.empty, modelOn := kvNat? rest "conc" != some 1,
+                       reg := Reg.empty, modelOn := true,
+                       parPending := false, parSettle := none, parDt := 0,
                        concCases := s.concCases + (if kvNat? rest "conc" == some 1 then 1 else 0),
                        parOps := [], expMsgs := [], rejectDelta := r,
                        prev := [], cur := [], curNone := [], prevNone := [], opKind := "",
@@ -602,6 +715,7 @@ def step (s : St) (line : String) : IO St := do
       IO.println s!"SAMPLE {line}"
     return s
   | ["END"] =>
+    let s ← resolvePar s
     let s ← leftoverMsgs s
     let s ← finishOp s
     return { s with opKind := "", ampCases := if s.modelOn then s.ampCases else s.ampCases + 1 }
@@ -630,11 +744,29 @@ def step (s : St) (line : String) : IO St := do
                        hist := bump s.hist ("pnotify_" ++ resClass (resOf line)) }
     return if resClass (resOf line) == "settle" || resClass (resOf line) == "accept" then
       { s with nontrivial := s.nontrivial + 1 } else s
-  | "pend" :: _ =>
+  | "psettle" :: rest =>
+    -- the SettleHodlInvoice call of a concurrent group
+    return { s with parSettle := some (hexNatD ((kv? rest "pre").getD ""), resOf line), ops := s.ops + 1,
+                     nontrivial := if resOf line == "ok" then s.nontrivial + 1 else s.nontrivial }
+  | "pend" :: rest =>
     let ops := s.parOps
-    let s ← startOp { s with parOps := [] } "par" (line ++ " => ok")
-    return { s with parOps := ops, modelOn := false }
+    let ps := s.parSettle
+    let s ← startOp { s with parOps := [], parSettle := none } "par" (line ++ " => ok")
+    return { s with parOps := ops, parSettle := ps, parDt := (kvNat? rest "dt").getD 0, parPending := true }
   | "note" :: _ => return s
+  | "expire" :: rest =>
+    -- cancelInvoiceImpl(hash, cancelAccepted = force) as called by the invoice expiry watcher
+    let s ← startOp s "expire" line
+    let s := if s.opRes == "ok" then { s with nontrivial := s.nontrivial + 1 } else s
+    if !s.modelOn then return s
+    let (reg', rep, msgs) := commitNow s.cfg s.reg
+      (.expire (hexNatD ((kv? rest "h").getD "")) (kvNat? rest "force" == some 1))
+    modelOp s reg' ⟨rep, msgs⟩ s.opRes
+  | "unsub" :: _ =>
+    -- HodlUnsubscribeAll of the (single) subscriber channel
+    let s ← startOp s "unsub" line
+    if !s.modelOn then return s
+    modelOp s (cstep shaNat childPre s.cfg ⟨s.reg, []⟩ .unsub).1.reg ⟨.unit, []⟩ "ok"
   | "notify" :: rest =>
     let s ← startOp s "notify" line
     let n : NotifyRec :=
@@ -687,7 +819,7 @@ def step (s : St) (line : String) : IO St := do
     let r := resOf line
     let s := { s with opHodl := s.opHodl ++ [(k, r)], nontrivial := s.nontrivial + 1,
                        hist := bump s.hist ("hodl_" ++ resClass r ++ "_" ++ resField r 1) }
-    if !s.modelOn then return s
+    if !s.modelOn || s.parPending then return s
     match s.expMsgs.find? (·.1 == k) with
     | none => mismatch s s!"hodl k={keyStr k}: impl={r}, model expects no message for this key"
     | some (_, m) =>
@@ -705,7 +837,7 @@ def step (s : St) (line : String) : IO St := do
       match parseInv h r with
       | some d => s := { s with cur := s.cur ++ [d] }
       | none => s ← mismatch s s!"unparsed dump: {r.take 80}"
-    if !s.modelOn then return s
+    if !s.modelOn || s.parPending then return s
     let m := match findHash s.reg.invs (hexNatD h) with
       | some i => modelDump i
       | none =>
@@ -727,6 +859,8 @@ def main (args : List String) : IO Unit := do
   IO.println s!"STAT cases={s.cases}"
   IO.println s!"STAT cases_monitor_only={s.ampCases}"
   IO.println s!"STAT cases_concurrent={s.concCases}"
+  IO.println s!"STAT concurrent_groups_explained_by_a_schedule={s.concExplained}"
+  IO.println s!"STAT concurrent_schedules_tried={s.concSchedules}"
   IO.println s!"STAT evaluations={s.ops}"
   IO.println s!"STAT model_compared_ops={s.modelOps}"
   IO.println s!"STAT nontrivial={s.nontrivial}"
